@@ -82,7 +82,11 @@ def write_readme(matrix):
         l1 = [p for p in ALL if row.get(p, {}).get('result') == 'L1/proof only']
         det = row.get(target, {}).get('detail', '').replace('|', '\\|')
         lines.append('| %s | %s | %s | %s | `%s` |' % (name, target, ' '.join(fi) or '-', ' '.join(l1) or '-', det[:160]))
-    missed = [n for n in matrix if 'error' not in matrix[n] and matrix[n].get(n[:3], {}).get('result') != 'failing input']
+    neutral = [n for n in matrix if os.path.exists(os.path.join(SEEDED, n, 'NEUTRALISED'))]
+    missed = [n for n in matrix if 'error' not in matrix[n] and matrix[n].get(n[:3], {}).get('result') != 'failing input'
+              and n not in neutral]
+    for n in neutral:
+        lines += ['', '`%s`: %s' % (n, open(os.path.join(SEEDED, n, 'NEUTRALISED')).read().strip())]
     lines += ['', 'Targeted check without a concrete failing input: %s' % (', '.join(missed) or 'none'), '']
     hist = os.path.join(SEEDED, 'HISTORY.md')
     if os.path.exists(hist):
